@@ -86,6 +86,10 @@ func (c *Ctx) Begin(op string) {
 	}
 }
 
+// Touch tells the watchdog that the case in flight is making progress (scenarios that run thousands of bounded
+// iterations as ONE case: every iteration has its own time-out, so progress is what has to be shown, not an emission).
+func (c *Ctx) Touch() { atomic.StoreInt64(&c.lastEmit, time.Now().UnixNano()) }
+
 // watchdog: when nothing was emitted for limit, the implementation is wedged (a request that never
 // returns): the case in flight is written with the observation WEDGED and the run ends there.
 func (c *Ctx) watchdog(limit time.Duration, finish func()) {
